@@ -167,8 +167,31 @@ class Run:
                     rec['on'] = victim
                     w.crash_instance(victim)
                     self.lost.add(victim)
+        elif kind == 'restart':
+            if len(live) > 1:
+                victim = rng.choice(live)
+                rec['on'] = victim
+                rec['down'] = round(rng.choice([rng.uniform(0.2, 4.0), rng.uniform(4.0, 15.0), rng.uniform(15, 40)]), 2)
+                w.crash_instance(victim)
+                w.at(w.now + rec['down'], w.start_instance, victim)
+                self.reboot_until = max(getattr(self, 'reboot_until', 0.0), w.now + rec['down'])
         elif kind == 'dup':
             rec['res'] = self.duplicate_some_process()
+        elif kind == 'burst':
+            # a burst of process activity: several direct Supervisor starts / stops on random instances
+            for _ in range(rng.randint(2, 6)):
+                target = rng.choice(live)
+                inst = w.instances[target]
+                names = list(inst.running_truth())
+                if names:
+                    ns = rng.choice(names)
+                    if inst.running_truth()[ns] in RUNNING_STATES:
+                        w.user_rpc(target, 'supervisor.stopProcess', ns, False)
+                    elif not self.model[ns.split(':')[0]]['managed'] or not self.knobs.get('dup_managed_only'):
+                        if not any(i.running_truth().get(ns) in RUNNING_STATES for i in w.live()) or \
+                                not self.model[ns.split(':')[0]]['managed']:
+                            w.user_rpc(target, 'supervisor.startProcess', ns, False)
+                w.run_for(rng.choice([0.0, 0.01, 0.1, 0.5]))
         self.actions.append(rec)
         w.emit('action', a={k: v for k, v in rec.items() if k != 'res'},
                ok=(isinstance(rec.get('res'), tuple) and rec['res'][0] == 'ok'))
@@ -227,6 +250,8 @@ class Run:
                 self.do_action(kind)
                 gap = self.rng.choice([0.0, 0.05, 0.5, 2.0, 5.0, 12.0, 30.0])
                 w.run_for(gap)
+            if getattr(self, 'reboot_until', 0.0) > w.now:
+                w.run_until(self.reboot_until + 1.0)
             # quiet period: until quiescence with OPERATION everywhere, bounded
             self.outcome['settled'] = self.wait_operation(knobs.get('settle_ticks', 80))
             w.run_for(2 * TICK)
